@@ -81,8 +81,16 @@ func c06Gen(r *Rng, tier string, i int) Sx {
 func c07Gen(r *Rng, tier string, i int) Sx {
 	g := newRtG(r)
 	t := g.table(r.Range(1, 7))
-	caps := []int{0, 1, 2, 3, 1000}
+	caps := []int{0, 1, 2, 3, 1000, 9, 16}
 	opts := []Sx{L(A("cache"), I(caps[r.Intn(len(caps))]))}
+	if r.Chance(1, 6) { // overlapping routes whose method sets differ: a method-specific route before a route for all methods
+		lit := g.pool[0]
+		first := r.Pick([]string{"POST", "PUT", "GET"})
+		t.defs = append([]Sx{L(SL([]string{first}), S("/"+lit+"/{id:\\d+}"), B(false)), L(SL(rtMethods), S("/"+lit+"/{slug}"), B(false))}, t.defs...)
+		t.pats = append([]*rtPat{nil, nil}, t.pats...)
+		t.paths = append([]string{"/" + lit + "/12", "/" + lit + "/ab"}, t.paths...)
+		t.meths = append([][]string{{first, "GET"}, rtMethods}, t.meths...)
+	}
 	if r.Chance(1, 2) {
 		opts = append(opts, L(A("na")))
 	}
